@@ -20,7 +20,6 @@ package c14
 
 import (
 	"fmt"
-	"os"
 	"sort"
 	"strings"
 	"sync"
@@ -800,12 +799,8 @@ func run(r *core.Run) {
 	}
 	sps := specials()
 	sps = append(sps, namingSpecials()...)
-	keyAsType := os.Getenv("C14_KEY_AS_TYPE") != ""
-	if keyAsType {
-		sps = append(sps, keyAsTypeSpecials()...)
-	} else {
-		r.Assume("NOT asserted (set C14_KEY_AS_TYPE=1 to assert): a key constraint used as a member type, (s:of (s:has-key \"a\")) / (s:has-key \"m\" (s:has-key \"x\")), which on this tree builds but can never match")
-	}
+	sps = append(sps, keyAsTypeSpecials()...)
+	r.Bound("key_as_member_type_schemas", len(keyAsTypeSpecials()))
 	r.Bound("type_spellings", len(typeNamings()))
 	r.Bound("naming_schemas", len(namingSpecials()))
 	r.Assume("which spellings of a type are accepted where was probed on the unchanged tree and is modelled exactly: type symbol, type-name string, validator value, quoted symbol naming a validator (deftype'd or set) and inline validators are accepted in every type position; a quoted symbol naming a builtin type ('s:int) is refused everywhere; s:not takes validator values only")
